@@ -203,7 +203,7 @@ func guardedByLoopVarLeq(e *Event, L *LoopCtx) Poly {
 }
 
 func c17Consumer(p *Prog, r *Report) {
-	r.Rule("C17.R4", "consumer agreement: the simulator numbers the same lines the calculator counts (non-empty batch lines, filtered where they are read) and '-lines a-b' executes exactly indices a-1 .. b-1 of them: no content-dependent skip in the dispatch loop; the start index is int(text before the dash) − 1 for every a-b and a-end argument, the end line int(text after the dash) unless it is the word end, a plain count sets the end line, the value argument is consumed, the dispatcher receives (start, end, lines) in its parameter order", 12)
+	r.Rule("C17.R4", "consumer agreement: the simulator numbers the same lines the calculator counts (non-empty batch lines, filtered where they are read) and '-lines a-b' executes exactly indices a-1 .. b-1 of them: no content-dependent skip in the dispatch loop; the start index is int(text before the dash) − 1 for every a-b and a-end argument, the end line int(text after the dash) unless it is the word end, a plain count sets the end line, the value argument is consumed, the dispatcher receives (start, end, lines) in its parameter order; nothing else in the argument loop writes them", 13)
 	fi := p.Funcs["hermes2go.main"]
 	x := walked(p, "hermes2go.main")
 	if fi == nil || x == nil {
